@@ -55,7 +55,7 @@ def job_rules_transposed(with_mirex=False, window=(3, 4)):
         if A.sym:
             c11._TABLE.clear()
             for tok, en in (('R', r), ('E', e), ('R2', r2), ('E2', e2)):
-                c11._TABLE[tok] = (en['root'], en['bits'], en['bass'])
+                c11._TABLE[tok] = (en['root'], en['bits'], en['bass'], en['xbits'])
             refs, ests = ['R', 'R2'], ['E', 'E2']
         else:
             refs, ests = [c11.label_of(r), c11.label_of(r2)], [c11.label_of(e), c11.label_of(e2)]
